@@ -26,24 +26,57 @@ import numpy as np
 from vf import core
 from vf.core import fs
 
-RULE = ('zoo objects are built from recipes (class x field variations); a pair case is '
-        'non-trivial when both objects have the same class (cross-class pairs are trivially '
-        'unequal); distinct = distinct (class, outcome, differing-field) signatures for pairs, '
-        '(space kind, input kind, outcome) for element(), (constructor, space kind, argument '
-        'class) for derived spaces.')
+RULE = ('zoo objects are built from a fixed list of recipes (class x field variations) plus a '
+        'few random base spaces with one-field variants; most of the ordered pairs are '
+        'cross-class and trivially unequal.  A pair case is non-trivial when both objects have '
+        'the same class; distinct = distinct (class, outcome, differing-field) signatures for '
+        'pairs, (space kind, input kind, outcome) for element(), (constructor, space kind, '
+        'argument class) for derived spaces, (table, dtype) for the dtype tables.  "All pairs / '
+        'all triples" is exhaustive over the zoo, not over the quantifier of the property.')
 TRUSTED = ['harness `describe` (reads the attributes used by __eq__/__hash__ from live objects)',
-           'translator tools/extract/dtypes.py (dtype tables -> Gen/DTypeTables.lean)',
-           'Python semantics of ==, hash(tuple), hash(frozenset), tuple containment, '
-           'NumPy broadcasting of == (modelled in Model/Spaces.lean)']
+           'translator tools/extract/dtypes.py (dtype tables -> Gen/DTypeTables.lean); the '
+           'tables themselves are checked against NumPy (np.dtype.kind, np.promote_types, '
+           'np.finfo) by the oracle',
+           'Python semantics of ==, hash(tuple), hash(frozenset), tuple containment, slice.indices, '
+           'NumPy broadcasting of == and basic/fancy index shapes (modelled in Model/Spaces.lean)']
 ASSUMPTIONS = ['NaN exponents / coordinates are outside the model (constructors reject NaN '
                'coordinates and constants)',
-               'custom inner/norm/dist callables are plain functions (compared by identity)',
-               'FiniteSet atoms are ints and strings; composite sets (CartesianProduct, '
-               'SetUnion, SetIntersection) have non-composite, non-FiniteSet members',
-               'base-class weightings (odl.space.weighting.ConstWeighting etc. instantiated '
-               'directly) and string dtypes of different lengths are outside the zoo',
+               'custom inner/norm/dist callables in the MODEL are plain functions (compared by '
+               'identity); bound methods and functools.partial objects are in the zoo for the '
+               'oracle only',
+               'FiniteSet atoms in the MODEL are ints and strings; float atoms, unhashable atoms '
+               'and NumPy-array atoms are in the zoo for the oracle only (array atoms: finding '
+               'C20-F10)',
+               'composite sets (CartesianProduct, SetUnion, SetIntersection) in the MODEL have '
+               'non-composite, non-FiniteSet members; composites with FiniteSet members and '
+               'nested composites are in the zoo for the oracle only',
+               'MatrixWeighting, directly instantiated base-class weightings and byte-swapped '
+               'dtypes are in the zoo for the oracle only (no model)',
+               'element(): conversion of values is modelled exactly only for dyadic values with '
+               '<= 11 significant bits and magnitude < 128, non-negative for unsigned targets '
+               '(castVal?); the generator stays inside that range; complex inputs offered to '
+               'real spaces (NumPy warning / TypeError), non-writeable inputs (copy) and '
+               "order='F' are not modelled",
                'array contents are fixed while hashes are compared (array-weighting hashes '
                'depend on mutable content by design)']
+EXPECTED_BRANCHES = [
+    'byaxis/NumpyTensorSpace/ok', 'byaxis/NumpyTensorSpace/ok/array-weighting',
+    'byaxis/NumpyTensorSpace/raise/array-weighting', 'astype/NumpyTensorSpace/ok',
+    'astype/NumpyTensorSpace/raise', 'astype/DiscretizedSpace/ok', 'astype/ProductSpace/ok',
+    'astype/ProductSpace/raise', 'real_space/NumpyTensorSpace/ok',
+    'real_space/NumpyTensorSpace/raise', 'complex_space/NumpyTensorSpace/ok',
+    'complex_space/NumpyTensorSpace/raise', 'contains/t', 'contains/f',
+    'element/NumpyTensorSpace/same', 'element/NumpyTensorSpace/T',
+    'element/NumpyTensorSpace/errValue', 'element/DiscretizedSpace/same',
+    'element/DiscretizedSpace/D', 'element/DiscretizedSpace/errValue',
+    'element/ProductSpace/same', 'element/ProductSpace/P', 'element/ProductSpace/errValue',
+    'element/ProductSpace/errType', 'pindex/int/ok', 'pindex/int/raise', 'pindex/slice/ok',
+    'pindex/list/ok'] + ['eq/{}/{}'.format(c, o) for c in (
+        'CartesianProduct', 'SetUnion', 'SetIntersection', 'FiniteSet', 'IntervalProd', 'RectGrid',
+        'RectPartition', 'NumpyTensorSpace', 'DiscretizedSpace', 'ProductSpace', 'Strings',
+        'NumpyTensorSpaceConstWeighting', 'NumpyTensorSpaceArrayWeighting',
+        'ProductSpaceConstWeighting', 'ProductSpaceArrayWeighting',
+        'NumpyTensorSpaceCustomInner', 'ProductSpaceCustomInner') for o in 'tf']
 KNOWN_EXPLAINS_DISAGREEMENT = False
 
 
@@ -1327,6 +1360,11 @@ def element_cases(ctx, spaces, elems):
             other_ts = odl.rn(sh, dtype=dt, weighting=7.0) if dt.kind == 'f' else None
             if other_ts is not None:
                 yield tn, t, 'other-tspace-element', other_ts.element(arr(sh, dt))
+            # tensors of the same shape from tensor spaces with ANOTHER dtype
+            for odt in ('float32', 'float64', 'int64'):
+                if np.dtype(odt) != dt and dt.kind in 'fc':
+                    yield tn, t, 'tensor-of-dtype-' + odt, odl.tensor_space(
+                        sh, dtype=odt).element(arr(sh, odt))
             yield tn, t, 'forced:own-element', t.element(arr(sh, dt))
         else:
             yield tn, t, 'forced:own-element', t.element(arr(sh, dt))
@@ -1341,6 +1379,15 @@ def _has_complex(inp):
     if isinstance(inp, (list, tuple)):
         return any(_has_complex(p) for p in inp)
     return isinstance(inp, complex)
+
+
+def _elem_leaves(x):
+    if hasattr(x, 'parts'):
+        for p in x.parts:
+            for l in _elem_leaves(p):
+                yield l
+    else:
+        yield x
 
 
 def _leaves(sp):
@@ -1421,6 +1468,14 @@ def run_elements(ctx, spaces, elems):
                     problems.append('returned the input although it is not in the space')
                 if not (res in t):
                     problems.append('result is not in the space')
+                try:
+                    got_dt = [np.asarray(p.asarray()).dtype for p in _elem_leaves(res)]
+                    want = [c.dtype for c in _leaves(t)]
+                    if got_dt != want:
+                        problems.append('data dtype {} is not the dtype of the space {}'.format(
+                            got_dt, want))
+                except Exception as e:  # noqa
+                    problems.append('reading the data raised ' + type(e).__name__)
                 got = flat_values(res)
                 if len(got) != len(exp[1]) or any(
                         not (g == e or (g != g and e != e)) for g, e in zip(got, exp[1])):
